@@ -321,14 +321,59 @@ theorem C12_fsck_complete (dirVA : Nat) (t : Node) (h : Encodable dirVA t) (hd :
   have := dirCount_le_size t
   omega
 
-/-- A directory that contains itself is rejected with `Insanity` (depth limit), a shared
-sub-directory is accepted as long as the unfolded tree fits the budget. -/
+/-- The tree a section represents is unique, so `C12_fsck_exact` speaks about *the* stored tree. -/
+theorem C12_tree_unique (r : Resources) (t1 t2 : Node) (h1 : IsTree r t1) (h2 : IsTree r t2) : t1 = t2 :=
+  isTree_unique h1 h2
+
+/-- Hence on a section that represents `t`, `fsck` succeeds iff `t` nests at most 32 directories
+deep and has at most `len / 16` directories (with multiplicity). -/
+theorem C12_fsck_on_tree (r : Resources) (hb : Aligned r) (t : Node) (h : IsTree r t) :
+    fsck r = .ok () ↔ t.depth ≤ 32 ∧ t.dirCount ≤ r.sec.size / 16 := by
+  rw [fsck_ok_iff hb]
+  constructor
+  · rintro ⟨t', h', hd, hc⟩
+    rw [isTree_unique h h']
+    exact ⟨hd, hc⟩
+  · rintro ⟨hd, hc⟩
+    exact ⟨t, h, hd, hc⟩
+
+/-- **The limit of "succeeds on every well-formed tree"** (`_partial`): for a written tree the only
+reason to fail is the depth limit — `fsck` accepts it iff it has at most 32 levels of directories.
+A perfectly well-formed tree with 33 nested directories is rejected (`FSCK_MAX_DEPTH`). -/
+theorem C12_fsck_well_formed_partial (dirVA : Nat) (t : Node) (h : Encodable dirVA t) :
+    fsck (resourcesOf dirVA t) = .ok () ↔ t.depth ≤ 32 := by
+  rw [C12_fsck_on_tree _ (aligned_resourcesOf dirVA t) t (isTree_resourcesOf h), resourcesOf_size]
+  have := dirCount_le_size t
+  constructor
+  · intro h'; exact h'.1
+  · intro h'; exact ⟨h', by omega⟩
+
+/-- a chain of `n` nested directories above one data entry -/
+def chain : Nat → Node
+  | 0 => .data [1] 0
+  | n+1 => .dir 0 (.cons (.id (n + 1)) (chain n) .nil)
+
+/-- 32 nested directories pass, 33 do not -/
+theorem C12_fsck_depth_limit :
+    fsck (resourcesOf 0 (chain 32)) = .ok () ∧ fsck (resourcesOf 0 (chain 33)) ≠ .ok () := by
+  have h32 : Encodable 0 (chain 32) ∧ (chain 32).depth = 32 := by decide +kernel
+  have h33 : Encodable 0 (chain 33) ∧ (chain 33).depth = 33 := by decide +kernel
+  refine ⟨(C12_fsck_well_formed_partial 0 _ h32.1).2 (by omega), fun h => ?_⟩
+  have := (C12_fsck_well_formed_partial 0 _ h33.1).1 h
+  omega
+
+/-- A directory that contains itself is rejected with `Insanity` (depth limit); a shared
+sub-directory is accepted as long as the unfolded tree fits the budget and rejected otherwise. -/
 theorem C12_fsck_examples :
     -- root with one entry pointing back at the root
     fsck ⟨#[0,0,0,0, 0,0,0,0, 0,0,0,0, 0,0,1,0,  1,0,0,0, 0,0,0,0x80], 0, 0⟩ = .err .insanity ∧
     -- root with two entries sharing one empty sub-directory at offset 32
     fsck ⟨#[0,0,0,0, 0,0,0,0, 0,0,0,0, 0,0,2,0,  1,0,0,0, 32,0,0,0x80,  2,0,0,0, 32,0,0,0x80,
-            0,0,0,0, 0,0,0,0, 0,0,0,0, 0,0,0,0], 0, 0⟩ = .ok () := by
+            0,0,0,0, 0,0,0,0, 0,0,0,0, 0,0,0,0], 0, 0⟩ = .ok () ∧
+    -- root with three entries sharing one empty sub-directory at offset 40: every reference is in
+    -- bounds and nothing contains itself, but 4 directory visits exceed the budget 56 / 16 = 3
+    fsck ⟨#[0,0,0,0, 0,0,0,0, 0,0,0,0, 0,0,3,0,  1,0,0,0, 40,0,0,0x80,  2,0,0,0, 40,0,0,0x80,  3,0,0,0, 40,0,0,0x80,
+            0,0,0,0, 0,0,0,0, 0,0,0,0, 0,0,0,0], 0, 0⟩ = .err .insanity := by
   decide +kernel
 
 /-! ## 7. Group icons / cursors -/
